@@ -145,9 +145,14 @@ package maintenance
 // The mode handed to Update names the whole deployment: the replicated (cloud) bit
 // and the distributed (cluster) bit are independent - a database that is both gets
 // both, so its tables are created with the Replicated engines AND the _dist tables.
+//@ ghost var dbUpgrades int
+//@ ghost var dbUpgradeFailed bool
 //@ func upgradeDB [C18]
 //@   flag checks=-index,-assert
-//@   requires streamUsed == constmap("Int", false)
+//@   ghostinit streamUsed = constmap("Int", false)
+//@   ghostset dbUpgrades = dbUpgrades + 1
+//@   ghostset dbUpgradeFailed = dbUpgradeFailed || result != nil
+//@   modifies everything
 //@   at Update$ cloud-bit-follows-the-configuration: ((mode & 2) != 0) <==> dbObject.Cloud
 //@   at Update$ distributed-bit-follows-the-configuration: ((mode & 4) != 0) <==> dbObject.ClusterName != ""
 // Initialisation applies each script file under its own stream key.
@@ -205,3 +210,28 @@ package maintenance
 //@ func UpdateLogsIndex [C19]
 //@   flag checks=-index,-assert
 //@   at putSetting$ marker-only-after-the-index-was-added: newIndex != "" ==> dbStmt[dbN - 1] == "ALTER TABLE samples_v4 ADD INDEX _logs_idx string TYPE " + idxName
+
+// Every configured database is upgraded, in order, and a failed upgrade is reported -
+// never swallowed: initialisation that returns nil has run the migration of all of them
+// without an error (the stream-key bookkeeping starts afresh for each database).
+//@ func UpgradeAll [C18]
+//@   flag checks=-index,-assert
+//@   modifies everything
+//@   ensures every-database-upgraded: result == nil ==> dbUpgrades == old(dbUpgrades) + len(config)
+//@   ensures a-failed-upgrade-is-reported: !old(dbUpgradeFailed) && result == nil ==> !dbUpgradeFailed
+//@   loop 1:
+//@     modifies everything
+//@     invariant rangeindex >= -1 && rangeindex + 1 <= len(config) && len(config) == old(len(config))
+//@     invariant dbUpgrades == old(dbUpgrades) + rangeindex + 1
+//@     invariant !old(dbUpgradeFailed) ==> !dbUpgradeFailed
+
+// The text codec marker is recorded only after BOTH tables were altered: every ALTER of
+// the run was executed successfully when putSetting is reached (a failed ALTER stops the
+// run, so that the next run alters again).
+//@ func UpdateTextCodec [C19]
+//@   flag checks=-index,-assert
+//@   at putSetting$ marker-only-after-every-table-was-altered: dbN == old(dbN) + 2
+//@   loop 1:
+//@     invariant rangeindex >= -1 && rangeindex + 1 <= 2
+//@     invariant dbN == old(dbN) + rangeindex + 1
+//@     modifies dbN, dbStmt, dbVer, dbSet
